@@ -66,3 +66,10 @@
 ;@onalloc sync.Map ghostempty smhas
 (define-fun emptyKeys () (Array Real Bool) ((as const (Array Real Bool)) false))
 ;@const emptyKeys (Array Real Bool)
+; SHA-256 is uninterpreted: the digest (as a 32-byte content, identified by its
+; content order) of a byte stream.  No property of the hash function is assumed.
+(declare-fun shaS (Stream) Real)
+;@specfn shaS : Stream -> Real
+;@specfn ordRow : (Array Int Int) Int Int -> Real
+;@specfn appRawS : Stream Real Int -> Stream
+(define-fun appRawS ((s Stream) (o Real) (n Int)) Stream (appRaw s o n))
